@@ -169,13 +169,16 @@ class Canon(ast.NodeTransformer):
         if isinstance(v, ast.Call) and isinstance(v.func, ast.Attribute) and \
                 v.func.attr == 'update' and len(v.args) == 1 and not \
                 v.keywords and isinstance(v.args[0], ast.DictComp) and len(
-                    v.args[0].generators) == 1 and not \
-                v.args[0].generators[0].ifs:
+                    v.args[0].generators) == 1 and len(
+                    v.args[0].generators[0].ifs) <= 1:
             dc = v.args[0]
             g = dc.generators[0]
             st = ast.copy_location(ast.Assign([ast.copy_location(
                 ast.Subscript(v.func.value, dc.key, ast.Store()), v)],
                 dc.value), n)
+            if g.ifs:
+                st = self.visit_If(ast.copy_location(
+                    ast.If(g.ifs[0], [st], []), n), children_done=True)
             return ast.copy_location(ast.For(g.target, g.iter, [st], []), n)
         if isinstance(v, ast.Call) and isinstance(v.func, ast.Attribute) and \
                 v.func.attr == 'fill' and len(v.args) == 1 and not v.keywords:
